@@ -382,3 +382,80 @@ Example C01_ddl_empty_column_list_refuted :
   ddl_fails DdlTables.dd_generic
     (ddl_tbl [ddl_col (ddl_x 2) ddl_int []] [{| DdlCore.tname := None; DdlCore.tbody := DdlCore.TUnique [] |}]).
 Proof. vm_compute. repeat split; try reflexivity. discriminate. Qed.
+
+(** * The DDL core on parser outputs (DdlCoreInv.v): what [parse_create_table_core] returns is well-formed, so
+    [C01_ddl_roundtrip] applies to it.  A parser output need not be in canonical spelling ([==], an unquoted
+    ESCAPE word: [dcanonical], as in [C01_core]) and its column types need not be in the proved part of the
+    data type round trip ([dtypes_hyp], C18); everything else [dwf] asks for is proved of every output. *)
+Require SqlV.DdlCoreInv.
+
+Theorem C01_ddl_outputs_wf : forall d fuel ts c rest,
+  In d DdlTables.all_ddialects ->
+  DdlCore.parse_create_table_core d fuel ts = Ok (c, rest) ->
+  DdlCoreInv.dcanonical c = true -> DdlCoreInv.dtypes_hyp d c = true ->
+  DdlCoreProofs.dwf d c = true.
+Proof.
+  intros d fuel ts c rest Hin. exact (DdlCoreInv.ddl_outputs_wf d fuel ts c rest (C01_ddl_tables_ok d Hin)).
+Qed.
+Print Assumptions C01_ddl_outputs_wf.
+
+(** parse -> print -> parse is a fixpoint on accepted token lists: the printed tokens of the result, followed
+    by the same rest, parse back to the same result, for every fuel above their number.  [dfrag] (the
+    conservative syntactic test on the printed tokens) stays a hypothesis: see the refuted example below *)
+Theorem C01_ddl_fixpoint : forall d fuel ts c rest,
+  In d DdlTables.all_ddialects ->
+  DdlCore.parse_create_table_core d fuel ts = Ok (c, rest) ->
+  DdlCoreInv.dcanonical c = true -> DdlCoreInv.dtypes_hyp d c = true ->
+  DdlCoreProofs.dfrag d c rest = true -> DdlCoreProofs.dender rest = true ->
+  forall fuel', (length (DdlCore.dtoks (DdlCore.dtab d) c ++ rest) < fuel')%nat ->
+  DdlCore.parse_create_table_core d fuel' (DdlCore.dtoks (DdlCore.dtab d) c ++ rest) = Ok (c, rest).
+Proof.
+  intros d fuel ts c rest Hin. exact (DdlCoreInv.ddl_fixpoint d fuel ts c rest (C01_ddl_tables_ok d Hin)).
+Qed.
+Print Assumptions C01_ddl_fixpoint.
+
+(** ... and for a whole accepted input ([parse_ddl_top]: only statement terminators follow) *)
+Theorem C01_ddl_fixpoint_top : forall d ts c,
+  In d DdlTables.all_ddialects ->
+  DdlCore.parse_ddl_top d ts = Ok c ->
+  DdlCoreInv.dcanonical c = true -> DdlCoreInv.dtypes_hyp d c = true -> DdlCoreProofs.dfrag d c [] = true ->
+  DdlCore.parse_create_table_core d (S (length (DdlCore.dtoks (DdlCore.dtab d) c)))
+    (DdlCore.dtoks (DdlCore.dtab d) c ++ []) = Ok (c, []).
+Proof.
+  intros d ts c Hin. exact (DdlCoreInv.ddl_fixpoint_top d ts c (C01_ddl_tables_ok d Hin)).
+Qed.
+Print Assumptions C01_ddl_fixpoint_top.
+
+(** the hypotheses are needed.  Tokens of the examples: *)
+Definition ddl_o k := DdlCore.TT (DataTypeRT.TOther k).
+Definition ddl_pre := [DdlCore.TW "CREATE"; DdlCore.TW "TABLE"; ddl_x 1; DdlCore.P_LParen].
+Definition ddl_out d ts (p : DdlCore.create_table -> list DdlCore.dtok -> bool) :=
+  match DdlCore.parse_create_table_core d (S (length ts)) ts with Ok (c, r) => p c r | _ => false end = true.
+
+(** CREATE TABLE x1 (x2 INT DEFAULT x3 == x4): accepted, the tree keeps [==] and is not [dwf] (its normal form is) *)
+Example C01_ddl_output_noncanonical_refuted :
+  ddl_out DdlTables.dd_generic
+    (ddl_pre ++ [ddl_x 2; DdlCore.TW "INT"; DdlCore.TW "DEFAULT"; ddl_x 3; ddl_o 44; ddl_x 4; DdlCore.P_RParen])
+    (fun c _ => negb (DdlCoreInv.dcanonical c) && DdlCoreInv.dtypes_hyp DdlTables.dd_generic c &&
+                negb (DdlCoreProofs.dwf DdlTables.dd_generic c) && DdlCoreProofs.dwf DdlTables.dd_generic (DdlCore.ct_norm c)).
+Proof. vm_compute. reflexivity. Qed.
+(** CREATE TABLE x1 (x2 foo): accepted, a custom type is outside the proved part of the data type round trip *)
+Example C01_ddl_output_custom_type_refuted :
+  ddl_out DdlTables.dd_generic (ddl_pre ++ [ddl_x 2; DdlCore.TW "foo"; DdlCore.P_RParen])
+    (fun c _ => DdlCoreInv.dcanonical c && negb (DdlCoreInv.dtypes_hyp DdlTables.dd_generic c) &&
+                negb (DdlCoreProofs.dwf DdlTables.dd_generic c)).
+Proof. vm_compute. reflexivity. Qed.
+(** [dfrag] cannot be discharged for parser outputs: it is a conservative test.  Databricks (lambda functions
+    on): CREATE TABLE x1 (x2 INT DEFAULT x3 IN (x4) -> x5) is accepted ([parse_in] does not try a lambda), its
+    tree is canonical, typed and [dwf], the printed tokens parse back to it, yet they fail [frag_ok]
+    ([( x4 ) ->] looks like a lambda) *)
+Example C01_ddl_output_dfrag_refuted :
+  ddl_out DdlTables.dd_databricks
+    (ddl_pre ++ [ddl_x 2; DdlCore.TW "INT"; DdlCore.TW "DEFAULT"; ddl_x 3; DdlCore.TW "IN"; DdlCore.P_LParen; ddl_x 4;
+                 DdlCore.P_RParen; ddl_o 74; ddl_x 5; DdlCore.P_RParen])
+    (fun c r => DdlCoreInv.dcanonical c && DdlCoreInv.dtypes_hyp DdlTables.dd_databricks c &&
+                DdlCoreProofs.dwf DdlTables.dd_databricks c && negb (DdlCoreProofs.dfrag DdlTables.dd_databricks c r) &&
+                match DdlCore.parse_create_table_core DdlTables.dd_databricks 100
+                        (DdlCore.dtoks (DdlCore.dtab DdlTables.dd_databricks) c ++ r) with
+                | Ok (c', r') => DdlCore.ct_eqb c c' | _ => false end).
+Proof. vm_compute. reflexivity. Qed.
